@@ -22,7 +22,8 @@ RULE = ("cases: (class ∈ {independent, correlated, model list}, input dim 1–
         "(add without update), forget (clear+update), swap (clear, then as many other samples), eqcount_* (after a "
         "clear every objective is re-filled with exactly its previous count: other inputs / same inputs other values "
         "/ equal count for some objectives only / one sample replaced / twice; helpers with as many initial samples "
-        "as training samples), requery (getters queried before and after the hyper-parameters change by a train() "
+        "as training samples), stale_by_design (predict after clear / add WITHOUT update = posterior of the data "
+        "at the last update), task-noise matrices full / diagonal with unequal entries / block diagonal / s·I, requery (getters queried before and after the hyper-parameters change by a train() "
         "with patched fit or by setting them, predictions under the current kernel; also on helper models), grow (variance monotone), empty, random, big "
         "(25–50 samples), single test point, perm (same multiset, other order/batching), local (model list: "
         "extra observations of one objective); non-trivial = at least one prediction compared against a "
@@ -68,13 +69,63 @@ def _hyp(rng, cls, d, m):
     return h
 
 
-def _noise(rng, cls, m):
-    if cls == "mlist" or rng.random() < 0.55:
+def _noise(rng, cls, m, kind=None):
+    """scalar noise variance, or an m×m task-noise matrix: full (all off-diagonals non-zero), diag (diagonal with
+    UNEQUAL entries — not a multiple of I), block (block diagonal: one correlated pair, the rest uncorrelated;
+    for m = 2 the same as diag), sI (the matrix s·I)"""
+    if cls == "mlist":
         return _rf(rng, 0.01, 0.3)
+    if kind is None:
+        r = rng.random()
+        kind = "scalar" if r < 0.45 else "full" if r < 0.7 else "diag" if r < 0.85 else "block" if r < 0.95 else "sI"
+    if kind == "scalar":
+        return _rf(rng, 0.01, 0.3)
+    if kind == "sI":
+        sv = _rf(rng, 0.01, 0.3)
+        return [[sv if i == j else 0.0 for j in range(m)] for i in range(m)]
+    if kind == "diag" or (kind == "block" and m == 2):
+        dg = [_rf(rng, 0.01, 0.06)] + [_rf(rng, 0.1, 0.4) for _ in range(m - 1)]   # clearly unequal
+        rng.shuffle(dg)
+        return [[dg[i] if i == j else 0.0 for j in range(m)] for i in range(m)]
+    if kind == "block":
+        a, b = rng.sample(range(m), 2)
+        S = [[(_rf(rng, 0.02, 0.4) if i == j else 0.0) for j in range(m)] for i in range(m)]
+        c = rng.choice([-1, 1]) * 0.6 * (S[a][a] * S[b][b]) ** 0.5
+        S[a][b] = S[b][a] = c
+        return S
     L = [[(_rf(rng, -0.3, 0.3) if j < i else (_rf(rng, 0.1, 0.5) if i == j else 0.0)) for j in range(m)]
          for i in range(m)]
     S = [[sum(L[i][k] * L[j][k] for k in range(m)) + (0.02 if i == j else 0.0) for j in range(m)] for i in range(m)]
     return S
+
+
+def _stale_by_design_case(rng, tier, cls=None, noise_kind=None):
+    """`predict` after `clear_data()` / `add_sample()` that were NOT followed by `update()`: the prediction must
+    still be the posterior of the samples held at the last update (never the prior, never the pending store)."""
+    cls = cls or rng.choice(["indep", "corr", "corr", "mlist"])
+    d = rng.choice([1, 2, 2, 3])
+    m = rng.choice([2, 2, 3])
+    n1, n2 = rng.randint(1, 6), rng.randint(1, 4)
+    T = rng.choice([1, 2, 3])
+    n = n1 + n2
+    P = _points(rng, d, n, rng.choice([3, 4])) + _points(rng, d, T, 5)
+    test = list(range(n, n + T))
+    samples = [([s, _val(rng), rng.randrange(m)] if cls == "mlist" else [s] + [_val(rng) for _ in range(m)])
+               for s in range(n)]
+    g1, g2 = list(range(n1)), list(range(n1, n))
+    case = {"kind": "direct", "cls": cls, "d": d, "m": m, "noise": _noise(rng, cls, m, noise_kind),
+            "hyp": _hyp(rng, cls, d, m), "P": P, "samples": samples, "shape": "stale_by_design",
+            "xcol": rng.random() < 0.3, "mono": False}
+    A = lambda sub: _add_ops(rng, cls, samples, sub)  # noqa: E731
+    pred = [3] + test
+    ops = A(g1) + [[2], pred, [1], pred]                      # cleared but not updated: still the posterior of g1
+    v = rng.choice(["readd", "addonly", "both"])
+    if v in ("readd", "both"):
+        ops += A(g2) + [pred, [2], pred]                      # pending g2 invisible until the update
+    if v in ("addonly", "both"):
+        ops += A(g1[:1]) + [pred, [1], pred]                  # add without update, then clear without update
+    case["ops"] = ops
+    return case
 
 
 def _points(rng, d, n, p):
@@ -217,16 +268,20 @@ def _requery_case(rng, tier, cls=None):
     return case
 
 
-def _direct_case(rng, tier, shape=None, cls=None):
+def _direct_case(rng, tier, shape=None, cls=None, noise_kind=None, m=None):
+    if shape == "stale_by_design":
+        return _stale_by_design_case(rng, tier, cls=cls, noise_kind=noise_kind)
     if shape == "requery":
         return _requery_case(rng, tier, cls=cls)
     if shape is not None and shape.startswith("eqcount"):
         return _eqcount_case(rng, tier, cls=cls, variant=shape.split("_", 1)[1] if "_" in shape else None)
     cls = cls or rng.choice(["indep", "indep", "corr", "corr", "mlist", "mlist"])
     d = rng.choice([1, 2, 2, 3])
-    m = rng.choice([2, 2, 3])
+    m = m or rng.choice([2, 2, 3])
     shape = shape or rng.choice(["basic", "stale", "forget", "grow", "empty", "random", "big", "single", "perm",
-                                 "local", "repeat", "swap", "eqcount", "eqcount", "requery"])
+                                 "local", "repeat", "swap", "eqcount", "eqcount", "requery", "stale_by_design"])
+    if shape == "stale_by_design":
+        return _stale_by_design_case(rng, tier, cls=cls)
     if shape == "eqcount":
         return _eqcount_case(rng, tier, cls=cls)
     if shape == "requery":
@@ -259,8 +314,9 @@ def _direct_case(rng, tier, shape=None, cls=None):
             samples.append([pid] + [core.dyadic(rng, -24, 24, 3) if rng.random() < 0.5 else rng.gauss(0, 1.5)
                                     for _ in range(m)])
     ids = list(range(n))
-    case = {"kind": "direct", "cls": cls, "d": d, "m": m, "noise": _noise(rng, cls, m), "hyp": _hyp(rng, cls, d, m),
-            "P": P, "samples": samples, "shape": shape, "xcol": rng.random() < 0.3, "mono": False}
+    case = {"kind": "direct", "cls": cls, "d": d, "m": m, "noise": _noise(rng, cls, m, noise_kind),
+            "hyp": _hyp(rng, cls, d, m), "P": P, "samples": samples, "shape": shape, "xcol": rng.random() < 0.3,
+            "mono": False}
     A = lambda sub: _add_ops(rng, cls, samples, sub)  # noqa: E731
     pred = [3] + test
     if shape in ("basic", "big", "single", "repeat"):
@@ -365,6 +421,13 @@ def gen(ctx):
             structured.append(("d", cls, "eqcount_" + variant))
         structured.append(("d", cls, "requery"))
         structured.append(("d", cls, "requery"))
+        structured.append(("d", cls, "stale_by_design"))
+        structured.append(("d", cls, "stale_by_design"))
+        if cls != "mlist":
+            # task-noise matrices without / with only some off-diagonal entries
+            for nk, mm, sh in [("diag", 2, "basic"), ("diag", 3, "grow"), ("block", 3, "stale"), ("sI", 2, "swap")]:
+                structured.append(("dn", cls, sh, nk, mm))
+            structured.append(("dn", cls, "stale_by_design", "diag", None))
     for h in ["mo", "mo", "mlist"]:
         for k in [0, 3]:
             structured.append(("h", h, k))
@@ -378,6 +441,8 @@ def gen(ctx):
             continue
         if item[0] == "d":
             yield _direct_case(rng, ctx.tier, shape=item[2], cls=item[1])
+        elif item[0] == "dn":
+            yield _direct_case(rng, ctx.tier, shape=item[2], cls=item[1], noise_kind=item[3], m=item[4])
         else:
             if item[2] == "eq":
                 yield _helper_case(rng, ctx.tier, helper=item[1], eqcount=True)
@@ -760,6 +825,12 @@ def run_case(ctx, case):
     ctx.count("shape_" + case["shape"])
     ctx.count("dims_d%d_m%d" % (case["d"], case["m"]))
     ctx.count("noise_" + ("matrix" if isinstance(case["noise"], list) else "scalar"))
+    if isinstance(case["noise"], list):
+        Sn = np.asarray(case["noise"], dtype=float)
+        off = Sn - np.diag(np.diag(Sn))
+        ctx.count("noise_matrix_" + ("full" if np.all(off[~np.eye(len(Sn), dtype=bool)] != 0) else
+                                     "block" if np.any(off != 0) else
+                                     "sI" if np.all(np.diag(Sn) == Sn[0, 0]) else "diag_unequal"))
     if case["kind"] == "helper":
         return _run_helper(ctx, case)
     return _run_direct(ctx, case)
